@@ -355,7 +355,8 @@ def st_refuse(draw):
     why = draw(st.sampled_from(["only_basic/date", "only_basic/time",
                                 "only_basic/zone", "mix/basic_date_ext_time",
                                 "mix/ext_date_basic_time",
-                                "only_basic/zone_truncated"]))
+                                "only_basic/zone_truncated",
+                                "mix/zone", "mix/zone"]))
     dn = draw(G.st_dn(cm, st.integers(1, 9998)))
     y, mo, d = R.cal_from_dn(cm, dn)
     vals = {"year": y, "month": mo, "day": d, "doy": R.ord_from_dn(cm, dn)[1]}
@@ -390,6 +391,24 @@ def st_refuse(draw):
         text = enc(df) + "T" + F.encode_time(tf, draw(st_time_values(tf)))
         if draw(st.booleans()):
             text += "Z"
+    elif why == "mix/zone":
+        # a complete date-time in one notation followed by a zone with
+        # minutes in the other notation, either sign
+        nota = draw(st.sampled_from(["basic", "extended"]))
+        other = "extended" if nota == "basic" else "basic"
+        df = draw(st.sampled_from(plain([f for f in F.DATE_FORMS if
+                                         f["notation"] == nota and
+                                         f["type"] == "complete"])))
+        tf = draw(st.sampled_from([f for f in F.TIME_FORMS if
+                                   f["notation"] == nota and
+                                   f["type"] == "complete" and
+                                   "ss" in f["toks"]]))
+        h, m = draw(G.st_tz())
+        if m == 0:
+            m = 30 if h >= 0 else -30
+        text = (enc(df) + "T" + F.encode_time(tf, draw(st_time_values(tf))) +
+                F.encode_zone(F.zone_form(
+                    "+hh:mm" if other == "extended" else "+hhmm", other), h, m))
     elif why == "only_basic/zone_truncated":
         # a basic-only parser that also reads truncated forms: a time-only or
         # truncated-date expression with the extended zone form
